@@ -2,6 +2,7 @@ import Driver.Util
 import Mtv.Client.Errors
 import Mtv.Client.ErrHeld
 import Mtv.Client.LifecycleSerial
+import Mtv.Props.C17Inflight
 namespace Driver.C17
 open Mtv Mtv.Client Driver
 
@@ -149,6 +150,22 @@ def handle : List String → String
           !(procs.all Char.isDigit) || procs.length > 7 || toString n != iters then "bad-op"
       else if Life.migrateWithHangupSettles then s!"race ok={n}/{n}" else "race stranded"
     | _, _ => "bad-op"
+  -- several calls in flight when the old data centre answers every one of them PHONE_MIGRATE_2 (`iters` runs on the real
+  -- client): the property's answer - every call returns what the configured data centre made for it. The lifecycle model of
+  -- the code AS IT IS says otherwise for two calls or more (Props/C17Inflight.lean: `unnamed_request_stays_pending`,
+  -- witness `second_migrating_call_is_stranded`): known finding D33 - the driver answers what that model says
+  | ["c17.inflight", calls, procs, iters] =>
+    match calls.toNat?, procs.toNat?, iters.toNat? with
+    | some c, some p, some n =>
+      if c < 1 || c > 16 || p < 1 || p > 64 || n < 1 || n > 1000 || toString c != calls || toString p != procs || toString n != iters
+      then "bad-op"
+      -- one call: `migrate_with_hangup_settles` / the control. Two or more: the model of the code as it is strands the
+      -- second caller (`Life.strandedHistory`: its request is still registered when everything else has settled)
+      else if c == 1 then "inflight ok"
+      else match Life.run (Life.connected0 {} true 7) Life.strandedHistory with
+        | some s => if (lookupPending s.m.pending 1004).isSome then "inflight stranded" else "inflight ok"
+        | none => "inflight model-history-not-enabled"
+    | _, _, _ => "bad-op"
   -- identity of the errors handed out: what the callers HOLD after all the replies were converted (`heldAfter`: a
   -- new cell per conversion), what each conversion returned although earlier callers wrote into their errors
   -- (`returnedWith`); goroutines: every result has its own cell, so the interleaving does not enter
